@@ -403,17 +403,21 @@ func passOS(name, src string) string {
 				return true
 			}
 			switch se.Sel.Name {
-			case "Create", "Rename", "Remove", "ReadFile", "Open":
+			case "Create", "Rename", "Remove", "ReadFile", "Open", "OpenFile", "WriteFile", "Stat", "Lstat":
 				o := fset.Position(pkg.Pos()).Offset
 				// os.X -> verifOS.X
 				inserts = append(inserts, ins{o, "verif"})
+			case "ErrNotExist", "ErrExist", "PathSeparator", "O_RDONLY", "O_WRONLY", "O_RDWR", "O_APPEND", "O_CREATE", "O_EXCL", "O_SYNC", "O_TRUNC", "FileMode", "ModePerm", "PathError", "IsNotExist", "IsExist":
+				// constants, types and pure helpers need no shim
+			default:
+				die("%s: os.%s inside the fileSystem store has no shim; the file-system checks cannot follow it", fset.Position(se.Pos()), se.Sel.Name)
 			}
 			return true
 		})
 	}
 	// "verif"+"os" -> need "verifOS": patch textually after insertion
 	out := apply(src, inserts)
-	for _, fn := range []string{"Create", "Rename", "Remove", "ReadFile", "Open"} {
+	for _, fn := range []string{"Create", "Rename", "Remove", "ReadFile", "OpenFile", "Open", "WriteFile", "Stat", "Lstat"} {
 		out = strings.ReplaceAll(out, "verifos."+fn, "verifOS."+fn)
 	}
 	return out
